@@ -283,6 +283,7 @@ impl<'a> Worker<'a> {
             "term" => self.oracle_term(case),
             "seed" => self.oracle_seed(case),
             "failstop" => self.oracle_failstop(case),
+            "stale" => self.oracle_stale(case),
             "roundtrip" => crate::checks::c01::oracle_roundtrip(self, case),
             "debuginfo" => crate::checks::c18::oracle_debuginfo(self, case),
             "extract-roundtrip" => crate::checks::c17::oracle_extract_roundtrip(self, case),
@@ -396,6 +397,34 @@ impl<'a> Worker<'a> {
         }
         if keys.len() >= 2 {
             self.stats.nontrivial.insert(golden_key(case));
+        }
+        v
+    }
+
+    // ------------------------------------------------------------------ pre-existing outputs
+
+    /// Initial-state variation: the sandbox already holds (stale, usually longer) files at the paths
+    /// the command writes to.  meta.stale = [input paths that are the stale files].  The reference is
+    /// the same pipeline started without them; every step that exits 0 must produce the same outputs.
+    fn oracle_stale(&mut self, case: &Case) -> Vec<Violation> {
+        let stale: Vec<String> = case.meta.get("stale").and_then(|k| k.as_array()).map(|a| a.iter().filter_map(|x| x.as_str().map(String::from)).collect()).unwrap_or_default();
+        let mut fresh = case.clone();
+        fresh.inputs.retain(|i| !stale.contains(&i.path));
+        let g = self.golden(&fresh);
+        let outs = self.run_pipeline(case);
+        let mut v = vec![];
+        self.stats.nontrivial.insert(golden_key(case));
+        for (i, (go, o)) in g.iter().zip(outs.iter()).enumerate() {
+            if !o.ok() {
+                break;
+            }
+            if let Some(d) = success_differs(go, o) {
+                v.push(Violation { class: format!("stale-output:exit0-differs:{}:{}", cmd_kind(&case.steps[i]), file_role(&d)), detail: format!("pre-existing {:?}: output {} differs from the one written into an empty directory", stale, d) });
+                break;
+            }
+        }
+        if v.is_empty() {
+            self.stats.probe("stale-output:same-as-fresh");
         }
         v
     }
